@@ -268,13 +268,13 @@ CHECKS["C03"]["stages"].append(dict(kind="py", harness="valgrind_render", prefix
 CHECKS["C20"] = dict(
     level="model_checking", engine="E-SCHED",
     technique="stateless model checking of the implementation under a cooperative scheduler: every schedule of 2-3 worker bodies with a bounded number of preemptions at interposed library/system calls, plus every single preemption at function-boundary granularity; ThreadSanitizer free-running pass as side condition",
-    level_text="Seven worker bodies (export plain/gzip/xz to a descriptor and read back; export plain/gzip to named files with two rotations; read a prepared file and render every item; build, copy and serialise blocks) run as real threads of which exactly one is runnable. Level 1: scheduling points = write, writev, read, rename, close, fstat, inet_ntop, deflate, lzma_code (interposed in the executable; calls that fill a caller-owned buffer - read, fstat, inet_ntop, deflate, lzma_code - have a second point right after they return); all schedules with <= P preemptions of all 28 unordered body pairs (and body triples in the thorough tier) are enumerated by DFS over choice prefixes; every thread's digest (output bytes, decoded dump, rendered text) must equal its sequential digest; ASan build. Level 2: library compiled with -finstrument-functions, every function entry/exit is a scheduling point; for every ordered pair (A,B) and every point i of A: A runs to i, B runs to completion, A resumes. Side condition: the same bodies free-running on 2,4,8,16 threads under ThreadSanitizer with yields injected at the level-1 points.",
-    level_note="Trusted: the scheduler serialises threads, so unsynchronised accesses between two scheduling points are invisible to it - this atomicity assumption is closed by the ThreadSanitizer pass (a different, sampling technique used only as side condition). Replay of a choice prefix that meets a smaller enabled set is a hard harness error. More than one preemption is explored only at level 1; more than 3 threads only free-running.",
+    level_text="Seven worker bodies (export plain/gzip/xz to a descriptor and read back; export plain/gzip to named files with two rotations; read a prepared file and render every item; build, copy and serialise blocks) run as real threads of which exactly one is runnable. Level 1: scheduling points = write, writev, read, rename, close, fstat, inet_ntop, deflate, lzma_code (interposed in the executable; calls that fill a caller-owned buffer - read, fstat, inet_ntop, deflate, lzma_code - have a second point right after they return); all schedules with <= P preemptions of all 28 unordered body pairs (and body triples in the thorough tier) are enumerated by DFS over choice prefixes; every thread's digest (output bytes, decoded dump, rendered text) must equal its sequential digest; ASan build. Level 2: library compiled with -finstrument-functions, every function entry/exit is a scheduling point; for every ordered pair (A,B) and every point i of A: A runs to i, B runs to completion, A resumes. Instance isolation (level-1 stage): 81 ordered pairs (X, Y) of nine workloads - the seven above, a read of a file whose maps carry unknown members, and a read of that file cut inside an unknown member - run one after the other on ONE fresh thread; Y must give the digest it gives on a thread that did nothing before (per-thread state is shared between independent instances too). Side condition: the same bodies free-running on 2,4,8,16 threads under ThreadSanitizer with yields injected at the level-1 points; each run is a freshly forked process in which no library code ran before the threads start (the parent never calls the library, the sequential reference is computed after the threads), so lazily initialised state is cold; extra rounds in which every thread runs the same body.",
+    level_note="Trusted: the scheduler serialises threads, so unsynchronised accesses between two scheduling points are invisible to it - this atomicity assumption is closed by the ThreadSanitizer pass (a different, sampling technique used only as side condition). Replay of a choice prefix that meets a smaller enabled set is a hard harness error. More than one preemption is explored only at level 1; more than 3 threads only free-running. Within one worker process of levels 1 and 2 only the first schedule starts from cold library state; first-use races of lazily built state are therefore left to the free-running pass.",
     stages=[dict(harness="sched", variant="asan", args=["--level", "1"], link=["-rdynamic"], share=0.55, max_alloc_mb=512),   # the xz encoder (preset 6) allocates ~70 MiB in one piece
             dict(harness="sched", variant="instr", harness_variant="plain", args=["--level", "2"], link=["-rdynamic"], prefix="l2_", share=0.85),
             dict(harness="sched", variant="tsan", flags=["-DTSAN_PASS"], link=["-rdynamic"], prefix="tsan_", replayable=False)],
     rule="level 1: DFS over choice prefixes, every schedule within the preemption bound; level 2: (ordered pair, preemption point) enumerated; a schedule is non-trivial if it differs from the default (no preemption) schedule; all distinct",
-    bound_quick="level 1: pairs, <= 2 preemptions; level 2: every 7th function-boundary point; TSan: 16 runs", bound_thorough="level 1: all pairs <= 2 preemptions, a body with itself <= 3 (not xz), all 35 triples of the 5 bodies plain-fd/gzip-fd/named-plain/named-gzip/render <= 2; level 2: every point; TSan: 48 runs",
+    bound_quick="level 1: pairs, <= 2 preemptions; level 2: every 7th function-boundary point; TSan: 23 runs; isolation: 81 pairs", bound_thorough="level 1: all pairs <= 2 preemptions, a body with itself <= 3 (not xz), all 35 triples of the 5 bodies plain-fd/gzip-fd/named-plain/named-gzip/render <= 2; level 2: every point; TSan: 62 runs; isolation: 81 pairs",
     assumptions=["bodies use 8-9 records of about 1 KiB in blocks of 2-3 so that every sink sees several flushes"],
     deadline_thorough=2400,
 )
